@@ -557,20 +557,13 @@ impl C17 {
                 format!("{} distinct compressed values, table of {} entries read back from the serialised file\nverdict {verdict}\ntable {}\n(value index)… {}", distinct.len(), table.len(), join(&t), join(&p)),
             );
         }
-        // M: the model of compress with the true limit
-        let m = drv.ask(&format!("cp {} {} {}", LIMIT[kind], compressed.len(), join(&compressed)).trim_end().to_string());
-        let mut pc: Vec<i64> = vec![];
-        let mut npc = 0;
-        for (v, i) in &idx {
-            if kind == 0 || *v != 0 {
-                pc.push(*v);
-                pc.push(*i);
-                npc += 1;
-            }
-        }
-        let i_show = format!("ok {} {} {}", join(&t), npc, join(&pc)).trim_end().to_string();
+        // M: the model of the remapping (`remapDim`: compress with the true limit, then the index of
+        // every character, zero heights/depths/italics at index 0)
+        let m = drv.ask(&format!("tfm {} {} {}", kind, n, join(&vals)).trim_end().to_string());
+        let per_char: Vec<i64> = vals.iter().map(|v| idx[v]).collect();
+        let i_show = format!("ok {} {} {}", join(&t), n, join(&per_char)).trim_end().to_string();
         if i_show != m {
-            out.fail(Kind::ImplVsModel, "tf", format!("tfm {} table differs from compress(values, {})", KIND[kind], LIMIT[kind]), format!("impl {i_show}\nmodel {m}"));
+            out.fail(Kind::ImplVsModel, "tf", format!("tfm {} table or character indices differ from the model of the remapping (limit {})", KIND[kind], LIMIT[kind]), format!("impl {i_show}\nmodel {m}"));
         }
     }
 
